@@ -535,7 +535,10 @@ class Inliner:
                 # do not rescan the inserted statements in this round (bounded by MAX_ROUNDS at program level)
                 i += len(repl)
                 continue
-            # recurse into compound statements
+            # recurse into compound statements (nested function / class definitions are units of their own)
+            if isinstance(s, (ast.FunctionDef, ast.AsyncFunctionDef, ast.ClassDef)):
+                i += 1
+                continue
             for field in ("body", "orelse", "finalbody"):
                 sub = getattr(s, field, None)
                 if isinstance(sub, list) and sub and isinstance(sub[0], ast.stmt):
